@@ -205,3 +205,57 @@ Proof.
   - destruct IH as [H1 [H2 [_ [H4 [H5 [H6 [H7 [H8 [H9 H10]]]]]]]]].
     repeat split; auto; try congruence.
 Qed.
+
+(* ---- compound assignment with an aliased scalar operand: by-value (the code) versus by-reference ---- *)
+Lemma c09_list_upd_length : forall X i (x : X) v, length (c09_list_upd i x v) = length v.
+Proof. induction i; destruct v; simpl; auto. Qed.
+
+Lemma c09_list_upd_nth : forall X i (x d : X) v l, i < length v -> nth l (c09_list_upd i x v) d = if l =? i then x else nth l v d.
+Proof.
+  induction i; destruct v; simpl; intros; try lia.
+  - destruct l; reflexivity.
+  - destruct l; simpl; auto. apply IHi. lia.
+Qed.
+
+Lemma P_assign_alias_snapshot : forall (X : Type) (f : X -> X -> X) (d : X) (v : list X) (k l : nat), l < length v ->
+  length (fst (c09_assign_vs_lane f d v k)) = length v /\
+  snd (c09_assign_vs_lane f d v k) = fst (c09_assign_vs_lane f d v k) /\
+  c09_lane d l (fst (c09_assign_vs_lane f d v k)) = f (c09_lane d l v) (c09_lane d k v).
+Proof.
+  intros. unfold c09_assign_vs_lane, c09_assign_vs, c09_map_vs, c09_lane. simpl. repeat split.
+  - now rewrite map_length.
+  - rewrite nth_indep with (d' := f d (nth k v d)) by (rewrite map_length; lia).
+    apply (map_nth (fun a => f a (nth k v d))).
+Qed.
+
+Lemma P_assign_byref_lanes : forall (X : Type) (f : X -> X -> X) (d : X) (v : list X) (k l : nat), k < length v -> l < length v ->
+  c09_lane d l (c09_assign_vs_lane_byref f d v k) =
+  if l <=? k then f (c09_lane d l v) (c09_lane d k v) else f (c09_lane d l v) (f (c09_lane d k v) (c09_lane d k v)).
+Proof.
+  intros X f d v k l Hk Hl. unfold c09_assign_vs_lane_byref, c09_lane.
+  assert (INV : forall j, j <= length v ->
+            let w := fold_left (fun w i => c09_list_upd i (f (nth i w d) (nth k w d)) w) (seq 0 j) v in
+            length w = length v /\
+            forall l, nth l w d = if l <? j then (if l <=? k then f (nth l v d) (nth k v d) else f (nth l v d) (f (nth k v d) (nth k v d)))
+                                  else nth l v d).
+  { induction j; intros Hj.
+    - simpl. split; auto.
+    - rewrite seq_S, fold_left_app. simpl.
+      destruct (IHj ltac:(lia)) as [L N]. cbv zeta in *.
+      set (w := fold_left (fun w i => c09_list_upd i (f (nth i w d) (nth k w d)) w) (seq 0 j) v) in *.
+      split. { now rewrite c09_list_upd_length. }
+      intros l0. rewrite c09_list_upd_nth by lia. rewrite !N.
+      destruct (l0 =? j) eqn:E.
+      + apply Nat.eqb_eq in E. subst l0.
+        replace (j <? S j) with true by (symmetry; apply Nat.ltb_lt; lia).
+        replace (j <? j) with false by (symmetry; apply Nat.ltb_ge; lia).
+        destruct (k <? j) eqn:Ek.
+        * apply Nat.ltb_lt in Ek. replace (k <=? k) with true by (symmetry; apply Nat.leb_le; lia).
+          replace (j <=? k) with false by (symmetry; apply Nat.leb_gt; lia). reflexivity.
+        * apply Nat.ltb_ge in Ek. replace (j <=? k) with true by (symmetry; apply Nat.leb_le; lia). reflexivity.
+      + apply Nat.eqb_neq in E. destruct (l0 <? j) eqn:E2.
+        * apply Nat.ltb_lt in E2. replace (l0 <? S j) with true by (symmetry; apply Nat.ltb_lt; lia). reflexivity.
+        * apply Nat.ltb_ge in E2. replace (l0 <? S j) with false by (symmetry; apply Nat.ltb_ge; lia). reflexivity. }
+  destruct (INV (length v) (le_n _)) as [_ N]. cbv zeta in N. rewrite N.
+  replace (l <? length v) with true by (symmetry; apply Nat.ltb_lt; lia). reflexivity.
+Qed.
